@@ -51,6 +51,8 @@ fn c20_strategy() -> impl Strategy<Value = Scenario> {
         initial_succeeded: vec![],
         cfg_later: None,
         notif_stall: false,
+        pay_opts: None,
+        fail_store: None,
         })
 }
 
